@@ -117,7 +117,26 @@ def tree_listing(root):
 FINISH = {None: None, "reversed": pools.order_reversed, "rot1": pools.order_rot(1)}    # delivery order of unordered results
 
 
-def run_case(ctx, rep, p, q, vars1, vars2, model, kinds=("?", "?"), start=None, expect_refusal=None, finish=None, cli=False, relout=False):
+class low_fd_limit:
+    """the process may hold only `extra` more files open than it does now (a login shell's default of 256 is reached
+    quickly by a tool that keeps one handle per binary file)"""
+    def __init__(self, extra):
+        self.extra = extra
+
+    def __enter__(self):
+        import resource
+        self.old = resource.getrlimit(resource.RLIMIT_NOFILE)
+        used = len(os.listdir("/proc/self/fd"))
+        resource.setrlimit(resource.RLIMIT_NOFILE, (min(self.old[1], used + self.extra), self.old[1]))
+
+    def __exit__(self, *a):
+        import resource
+        resource.setrlimit(resource.RLIMIT_NOFILE, self.old)
+        return False
+
+
+def run_case(ctx, rep, p, q, vars1, vars2, model, kinds=("?", "?"), start=None, expect_refusal=None, finish=None, cli=False, relout=False,
+             fdlimit=None):
     from amr_kitchen import PlotfileCooker
     from amr_kitchen.combine.combine import combine
     d1, d2 = ctx.newdir("c06a_"), ctx.newdir("c06b_")
@@ -125,7 +144,8 @@ def run_case(ctx, rep, p, q, vars1, vars2, model, kinds=("?", "?"), start=None, 
     work = ctx.newdir("c06w_"); os.makedirs(work)
     out = os.path.join(work, "out")
     case = {"p": p, "q": q, "vars1": vars1, "vars2": vars2, "kinds": list(kinds), "expect_refusal": expect_refusal, "finish": finish, "cli": cli,
-            "relout": relout}
+            "relout": relout, "fdlimit": fdlimit}
+    if fdlimit: rep.count("few-file-descriptors-left")
     if cli: rep.count("console-script")
     if relout: rep.count("relative-output-after-chdir")
     rep.case({"p": p, "q": q, "v1": vars1, "v2": vars2}, nontrivial=(kinds[0] != "mono" or kinds[1] not in ("mono", "same")
@@ -147,6 +167,10 @@ def run_case(ctx, rep, p, q, vars1, vars2, model, kinds=("?", "?"), start=None, 
                 r1, r2 = PlotfileCooker(d1), PlotfileCooker(d2)
                 with chdir(work):
                     combine(r1, r2, pltout="out", vars1=vars1, vars2=vars2)
+            elif fdlimit:
+                r1, r2 = PlotfileCooker(d1), PlotfileCooker(d2)
+                with low_fd_limit(fdlimit):
+                    combine(r1, r2, pltout=out, vars1=vars1, vars2=vars2)
             else:
                 combine(PlotfileCooker(d1), PlotfileCooker(d2), pltout=out, vars1=vars1, vars2=vars2)
     except Exception as e:
@@ -311,9 +335,19 @@ def run(ctx, rep, model=True):
             return
     p, q = big_index_pair()
     run_case(ctx, rep, p, q, None, None, model, ("mono", "mono"), expect_refusal="index-1e5")
+    # 64 boxes in one binary file of the first input, each in a file of its own in the second, with room for 24 more open files
+    p = plotgen.random_spec(ctx.rng, ndims=3, nlev=1, nf=2, data="bits", B=2, nblk=[4, 4, 4], single0=False, layout="mono")
+    p["fields"] = P_FIELDS[:2]
+    p["levels"] = [[[[2 * i, 2 * j, 2 * k], [2 * i + 1, 2 * j + 1, 2 * k + 1]] for i in range(4) for j in range(4) for k in range(4)]]
+    p["layout"] = [[[0, b] for b in range(64)]]
+    q = copy.deepcopy(p); q["fields"] = Q_FIELDS[:2]; q["data"] = {"mode": "bits", "seed": 4242}
+    q["layout"] = [[[b, 0] for b in range(len(lv))] for lv in q["levels"]]
+    if len(p["levels"][0]) >= 40:
+        run_case(ctx, rep, p, q, None, None, False, ("mono", "file-per-box"), fdlimit=24)
 
 
 def replay(ctx, rep, obj, model=True):
     c = obj["case"]
     run_case(ctx, rep, c["p"], c["q"], c["vars1"], c["vars2"], model, tuple(c.get("kinds", ("?", "?"))),
-             expect_refusal=c.get("expect_refusal"), finish=c.get("finish"), cli=c.get("cli", False), relout=c.get("relout", False))
+             expect_refusal=c.get("expect_refusal"), finish=c.get("finish"), cli=c.get("cli", False), relout=c.get("relout", False),
+             fdlimit=c.get("fdlimit"))
